@@ -11,7 +11,7 @@ import ast
 
 from ..flow import flow_of, path_of
 from ..loader import FUNC, AnalysisError, dotted, last_name, loc, short, walk_local, enclosing_stmt
-from ..util import AMS, ASE, CP2K, GROMACS, LAMMPS, TIS, TURTLE, kwarg
+from ..util import AMS, ASE, CP2K, ENGBASE, GROMACS, LAMMPS, TIS, TURTLE, kwarg
 from ..variants import B, K
 
 EXPLANATION = (
@@ -328,6 +328,7 @@ def run(ctx):
     ctx.rule("R-16.2", "the regenerated frame goes to a fresh file under exe_dir; system.config re-pointed; caller passes a copy", floor=10)
     ctx.rule("R-16.3", "momentum reset under zero_momentum between draw and write (external gmx refuses False)", floor=5)
     ctx.rule("R-16.4", "reported kinetic energy computed from the velocities that are written; system.ekin set to it", floor=5)
+    ctx.rule("R-16.6", "positional role agreement in velocity regeneration: (dek, kin_new), (vel, sigma_v), (xyz, vel, box, names) and writer arguments sit where the callee returns / expects them", floor=15)
     impls = implementations(ctx.tree)
     armed = 0
     for m, cname, f in impls:
@@ -348,10 +349,17 @@ def run(ctx):
     if armed < 5:
         raise AnalysisError(f"C16: only {armed} modify_velocities implementations found (expected 5)")
     ctx.attempt(r16_caller, ctx)
+    from .shared import role_agreement
+    P16 = ("modify_velocities", "draw_maxwellian_velocities", "_prepare_shooting_point", "kinetic_energy", "reset_momentum", "prepare_shooting_point")
+    ctx.attempt(role_agreement, ctx, "R-16.6", [GROMACS, CP2K, LAMMPS, TURTLE, ASE, ENGBASE, TIS], lambda q, f: f.name in P16, " (velocity regeneration would write / report the wrong quantity)")
     ctx.note("R-16.5 (draws use the job stream) is decided under C07 R-7.4 for the same call sites")
 
 
 VARIANTS = [
+    B("c16-lammps-writer-args-swapped", LAMMPS, "        write_lammpstrj(conf_out, id_type, xyz, vel, box)", "        write_lammpstrj(conf_out, id_type, vel, xyz, box)", "R-16.6", control=True),
+    B("c16-tis-dek-kin-swapped", TIS, "    dek, _ = engine.modify_velocities(shpt_copy, ens_set[\"tis_set\"])", "    _, dek = engine.modify_velocities(shpt_copy, ens_set[\"tis_set\"])", "R-16.6"),
+    B("c16-cp2k-kinetic-args-swapped", CP2K, "        kin_new = kinetic_energy(vel, mass)[0]", "        kin_new = kinetic_energy(mass, vel)[0]", "R-16.6"),
+    K("c16-keep-writer-kwargs", LAMMPS, "        write_lammpstrj(conf_out, id_type, xyz, vel, box)", "        write_lammpstrj(conf_out, id_type, xyz, vel=vel, box=box)"),
     B("c16-cp2k-positions-scaled", CP2K, "        write_xyz_trajectory(conf_out, xyz, vel, atoms, box, append=False)\n        kin_new", "        write_xyz_trajectory(conf_out, xyz * 1.0001, vel, atoms, box, append=False)\n        kin_new", "R-16.1", control=True),
     B("c16-lammps-positions-shifted", LAMMPS, "        conf_out = os.path.join(self.exe_dir, f\"genvel.{self.ext}\")\n        write_lammpstrj(conf_out, id_type, xyz, vel, box)", "        conf_out = os.path.join(self.exe_dir, f\"genvel.{self.ext}\")\n        xyz -= box[:, 0]\n        write_lammpstrj(conf_out, id_type, xyz, vel, box)", "R-16.1"),
     B("c16-gromacs-velocities-as-positions", GROMACS, "            write_gromos96_file(conf_out, txt, xyz, vel)", "            write_gromos96_file(conf_out, txt, vel, vel)", "R-16.1"),
